@@ -1,3 +1,28 @@
+/-
+Contracts.Witness — machine-checked non-vacuity of the property-level theorems (reviewer's file, see AUDIT.md).
+
+For each main theorem a CONCRETE instance is exhibited, every hypothesis of the theorem is proved for it (the
+`have` lines carry the names of the theorem's hypotheses), the theorem is applied, and its conclusion for that
+instance is the statement of the `*_witness` theorem.
+
+Concrete data
+* environments: `env0 = Spec.BlissModel.env` (bliss contract satisfied, `set` order = list order, `float(s)` accepts
+  every token), `env1` = the same with *reversed* `set` iteration order, `envW` (writer: `f"{x:.6f}"` = `0.000000`,
+  ten-character time stamp), `envS` (`random.shuffle` = list reversal).
+* molecules: water `H2O/(1-3)(2-3)/(1:mass=2)(3:rad=2)` as the graph the TUCAN parser returns for `Parser.water`
+  (`IsWater g`; unique, exists by `water_exists`); its second description `flip g` (atoms renumbered 0 ↔ 2 and listed
+  in the order 2, 1, 0: `flip_nontrivial`); the respelling `RoundTrip.water'`; CO⁺ as the V3000 connection table
+  `Reader.exampleCtab` rendered by `Reader.exampleDress` (16 lines, one continued atom line), its redrawing
+  `example2` and a V2000 file `v2text`; DF as the literal graph `RoundTrip.exHF`; HDO⁺ as the literal graph `hdo`.
+
+Witnesses: `C15_witness`, `C12_witness`, `C05_witness`, `C01_witness`, `C04_witness`, `C13_witness`,
+`C03_pipeline_witness`, `C02_witness`, `C03_fixpoint_witness`, `C11_norm_witness`, `render_ok_witness`,
+`C06_reader_witness`, `C09_witness`, `permute_witness`, `v2000_witness`, `C08_witness`.
+Hypotheses of the form "this run returned `x`" (`r`, `e`, `p`, `pa`, `pb`, `h`) are discharged by the corresponding
+totality theorem (`C15_*`, `C03_fixpoint_ex`, `graph_from_tree_accepts`) or, for `permute_molecule`, by evaluating the
+call (`permute_runs`). The ANTLR assumption `V4` is instantiated by `RoundTrip.V4_satisfiable` (classical choice), so
+`antlr` is the one non-concrete argument.
+-/
 import Contracts.Final
 import Contracts.V2000
 set_option autoImplicit false
@@ -518,4 +543,385 @@ theorem C06_reader_witness :
   have hne : exampleCtab.atoms ≠ [] := by decide
   exact Contracts.Final.C06_reader env0 env0_set env1_set env0_bliss env1_cp env1_pv exampleCtab example2 h h' hsame hneg hself hne
 
+
+/-! ## the writer: `RoundTrip.exHF` (deuterium fluoride), concrete float formatting -/
+
+open Contracts.RoundTrip (exHF)
+
+/-- environment of the writer: `f"{x:.6f}"` prints `0.000000` (the example has no coordinates), a ten-character
+time stamp, version `1.0.0`; `float()` accepts every token -/
+noncomputable def envW : DepEnv :=
+  { BlissModel.env with fmt6 := fun _ => py!"0.000000", nowStamp := py!"0928261200", version := py!"1.0.0" }
+
+theorem exHF_wf : exHF.WF := by
+  have w0 : (Graph.empty.addNode 0 ⟨[("element_symbol", Val.str py!"H"), ("atomic_number", Val.int 1), ("mass", Val.int 2)]⟩).WF :=
+    Graph.WF_addNode Graph.WF_empty 0 (by unfold Dict.WF Dict.keys; decide)
+  have w1 := Graph.WF_addNode w0 1 (a := ⟨[("element_symbol", Val.str py!"F"), ("atomic_number", Val.int 9)]⟩) (by unfold Dict.WF Dict.keys; decide)
+  exact Graph.WF_addEdge w1 0 1 Dict.empty
+
+theorem exHF_nodesData : exHF.nodesData =
+    [(0, ⟨[("element_symbol", Val.str py!"H"), ("atomic_number", Val.int 1), ("mass", Val.int 2)]⟩),
+     (1, ⟨[("element_symbol", Val.str py!"F"), ("atomic_number", Val.int 9)]⟩)] := by decide
+
+theorem exHF_edgesData : exHF.edgesData = [(0, 1, Dict.empty)] := by decide
+
+theorem exHF_nodeRT : ∀ p ∈ exHF.nodesData, Contracts.Writer.NodeRT envW p := by
+  intro p hp
+  rw [exHF_nodesData] at hp
+  simp only [List.mem_cons, List.not_mem_nil, or_false] at hp
+  have hclean : Contracts.Writer.CleanTok py!"0.000000" := by unfold Contracts.Writer.CleanTok; decide
+  rcases hp with rfl | rfl
+  · refine ⟨⟨py!"H", by decide, by decide⟩, ⟨hclean, hclean, hclean⟩, ⟨nat_small (by decide), ?_⟩, ⟨_, rfl⟩, ⟨_, rfl⟩, ⟨_, rfl⟩⟩
+    intro m hm
+    have : Contracts.Writer.wMass ⟨[("element_symbol", Val.str py!"H"), ("atomic_number", Val.int 1), ("mass", Val.int 2)]⟩ = some 2 := by decide
+    rw [this] at hm; cases hm
+    exact nat_small (by decide)
+  · refine ⟨⟨py!"F", by decide, by decide⟩, ⟨hclean, hclean, hclean⟩, ⟨nat_small (by decide), ?_⟩, ⟨_, rfl⟩, ⟨_, rfl⟩, ⟨_, rfl⟩⟩
+    intro m hm
+    have : Contracts.Writer.wMass ⟨[("element_symbol", Val.str py!"F"), ("atomic_number", Val.int 9)]⟩ = none := by decide
+    rw [this] at hm; cases hm
+
+/-- `Writer.C09`, instance -/
+theorem C09_witness :
+    ∃ text, Tucan.molfile_writer.graph_to_molfile envW
+        (Contracts.Writer.maxLen (Contracts.Writer.logicalLines envW exHF) / 71 + 1) exHF false = .ok text ∧
+      (∀ l ∈ splitlines text, l.length ≤ 79) ∧
+      Tucan.molfile_v3000_reader.graph_attributes_from_molfile_v3000 envW
+        ((Contracts.Writer.fileLines envW exHF).length + 1) (splitlines text) =
+        .ok (Contracts.Writer.atomsBack envW exHF, Contracts.Writer.bondsBack exHF) := by
+  have hg : exHF.WF := exHF_wf
+  have hok : ∀ p ∈ exHF.nodesData, Contracts.Writer.NodeOk p.2 := by
+    intro p hp
+    rw [exHF_nodesData] at hp
+    simp only [List.mem_cons, List.not_mem_nil, or_false] at hp
+    rcases hp with rfl | rfl
+    · refine ⟨by decide, ?_⟩
+      intro v hv
+      have : (⟨[("element_symbol", Val.str py!"H"), ("atomic_number", Val.int 1), ("mass", Val.int 2)]⟩ : Attrs).get? "mass" = some (Val.int 2) := by decide
+      rw [this] at hv; cases hv; exact ⟨2, rfl⟩
+    · refine ⟨by decide, ?_⟩
+      intro v hv
+      have : (⟨[("element_symbol", Val.str py!"F"), ("atomic_number", Val.int 9)]⟩ : Attrs).get? "mass" = none := by decide
+      rw [this] at hv; cases hv
+  have hn : ∀ p ∈ exHF.nodesData, Contracts.Writer.NodeRT envW p := exHF_nodeRT
+  have he : ∀ e ∈ exHF.edgesData, Contracts.Writer.EdgeRT e := by
+    intro e he
+    rw [exHF_edgesData] at he
+    simp only [List.mem_cons, List.not_mem_nil, or_false] at he
+    subst he
+    exact ⟨1, by decide, nat_small (by decide)⟩
+  have hna : exHF.nodesData.length < 10 ^ 4300 := by rw [exHF_nodesData]; exact nat_small (by decide)
+  have hnb : exHF.edgesData.length < 10 ^ 4300 := by rw [exHF_edgesData]; exact nat_small (by decide)
+  have hstamp : envW.nowStamp.length = 10 := by decide
+  have hv : Contracts.Writer.Plain envW.version := by unfold Contracts.Writer.Plain; decide
+  have hs : Contracts.Writer.Plain envW.nowStamp := by unfold Contracts.Writer.Plain; decide
+  have hp : Contracts.Writer.PlainValues envW exHF := by
+    refine ⟨fun v => by
+      show Contracts.Writer.Plain py!"0.000000"
+      unfold Contracts.Writer.Plain; decide, ?_, ?_⟩
+    · rw [exHF_nodesData]; unfold Contracts.Writer.Plain; decide
+    · rw [exHF_edgesData]; unfold Contracts.Writer.Plain; decide
+  exact Contracts.Writer.C09 envW exHF _ _ hg hok hn he hna hnb hstamp hv hs hp (le_refl _) (le_refl _)
+
+
+/-! ## C16: `permute_molecule` on HDO⁺ with `random.shuffle` = list reversal -/
+
+noncomputable def envS : DepEnv := { BlissModel.env with shuffle := fun _ _ l => l.reverse }
+theorem envS_shuffle : Relabel.ShuffleLawful envS := fun _ _ l => List.reverse_perm l
+
+def hAttrs : Attrs := ⟨[("element_symbol", Val.str py!"H"), ("atomic_number", Val.int 1)]⟩
+def dAttrs : Attrs := ⟨[("element_symbol", Val.str py!"H"), ("atomic_number", Val.int 1), ("mass", Val.int 2)]⟩
+def oAttrs : Attrs := ⟨[("element_symbol", Val.str py!"O"), ("atomic_number", Val.int 8), ("chg", Val.int 1)]⟩
+
+/-- HDO⁺ as a networkx graph: atoms 0 (H), 1 (D), 2 (O); bonds 0–2 (type 1) and 1–2 (type 1) -/
+def hdo : Graph :=
+  ((((Graph.empty.addNode 0 hAttrs).addNode 1 dAttrs).addNode 2 oAttrs).addEdge 0 2 ⟨[("bond_type", Val.int 1)]⟩).addEdge 1 2
+    ⟨[("bond_type", Val.int 1)]⟩
+
+theorem hdo_wf : hdo.WF := by
+  have w0 := Graph.WF_addNode Graph.WF_empty 0 (a := hAttrs) (by unfold Dict.WF Dict.keys; decide)
+  have w1 := Graph.WF_addNode w0 1 (a := dAttrs) (by unfold Dict.WF Dict.keys; decide)
+  have w2 := Graph.WF_addNode w1 2 (a := oAttrs) (by unfold Dict.WF Dict.keys; decide)
+  exact Graph.WF_addEdge (Graph.WF_addEdge w2 0 2 _) 1 2 _
+
+theorem hasEdge_false_of_edgeAttrs {r : Graph} {u v : Int} (h : r.edgeAttrs u v = none) : r.hasEdge u v = false := by
+  unfold Graph.hasEdge
+  unfold Graph.edgeAttrs at h
+  cases hd : r.adj.get? u with
+  | none => rfl
+  | some d =>
+    rw [hd] at h
+    simp only [Option.bind_some] at h
+    simp [Dict.contains, h]
+
+theorem permute_runs : ∃ r rng', Tucan.graph_utils.permute_molecule envS 1 (Rng.ofSeed (Val.int 0)) hdo (Val.int 7) = .ok (r, rng') := by
+  let m' := hdo.relabelCopy (Dict.ofPairs (zip (envS.shuffle (Val.int 7) 0 hdo.nodeList) hdo.nodeList))
+  have hp := envS_shuffle (Val.int 7) 0 hdo.nodeList
+  obtain ⟨w1, -, p1, r1⟩ := relabelCopy_zip_spec hdo_wf hp hdo_wf.nodup_nodeList hp.length_eq
+  obtain ⟨r, hr, w2, s2, p2, asc, hnode, hedge⟩ := Relabel.sort_molecule_by_label_spec envS w1
+  have hm'nodes : m'.nodeList = [2, 1, 0] := by decide
+  have h12 : m'.edgeAttrs 1 2 = none := by decide
+  have hE : r.hasEdge 1 2 = false := by
+    apply hasEdge_false_of_edgeAttrs
+    rw [hedge 1 (by show (1:Int) ∈ m'.nodeList; rw [hm'nodes]; decide) 2 (by show (2:Int) ∈ m'.nodeList; rw [hm'nodes]; decide)]
+    exact h12
+  have hedges : hdo.edges = [(0, 2), (1, 2)] := by decide
+  have hEq : hdo.edgesEq r = false := by
+    unfold Graph.edgesEq
+    rw [hedges]
+    simp [hE]
+  have hne : hdo.numberOfEdges = 2 := by decide
+  have hd : hdo.densityNeOne = true := by decide
+  have haux : Tucan.graph_utils._permute_molecule envS (Rng.ofSeed (Val.int 7)) hdo = .ok (r, (Rng.ofSeed (Val.int 7)).next) := by
+    rw [Relabel.permute_molecule_aux_eq]
+    show (Tucan.graph_utils._sort_molecule_by_label envS m' >>= fun r => pure (r, (Rng.ofSeed (Val.int 7)).next)) = _
+    rw [hr]; rfl
+  refine ⟨r, (Rng.ofSeed (Val.int 7)).next, ?_⟩
+  unfold Tucan.graph_utils.permute_molecule
+  simp only [toVal, ToVal.toVal, id, haux, ok_bind, pure_eq_ok, hne, hd]
+  simp [pyGt, PyCmp.gt, POrd.lt, truthy, Truthy.truthy, hEq, List.range_succ]
+
+
+/-- `Relabel.permute_molecule_spec`, instance: the run hypothesis `h` is `permute_runs`; enforcement applies
+(two bonds, not a complete graph), so the last clause of the conclusion is not vacuous here -/
+theorem permute_witness : ∃ r rng',
+    Tucan.graph_utils.permute_molecule envS 1 (Rng.ofSeed (Val.int 0)) hdo (Val.int 7) = .ok (r, rng') ∧
+    r.WF ∧ r.nodeList.Perm hdo.nodeList ∧ r.nodeList.Pairwise (· < ·) ∧ (∃ π, IsRelabel π hdo r) ∧
+    hdo.edgesEq r = false := by
+  obtain ⟨r, rng', h⟩ := permute_runs
+  have hs : Relabel.ShuffleLawful envS := envS_shuffle
+  have hm : hdo.WF := hdo_wf
+  obtain ⟨a, b, c, d, e⟩ := Relabel.permute_molecule_spec hs 1 (Rng.ofSeed (Val.int 0)) hm (Val.int 7) h
+  exact ⟨r, rng', h, a, b, c, d, e ⟨by decide, by decide⟩⟩
+
+/-! ## C08: a V2000 file for the same CO⁺ -/
+
+open Contracts.V2000 (Item endLine lineKind specGet atomDict fieldInt field Kind fmt3 fieldFloat)
+
+theorem elem_of_table (s : Str) (hs : s ∈ Contracts.Parser.periodicTable) :
+    ∃ ea, Tucan.Consts.ELEMENT_ATTRS.get? s = some ea ∧
+      ea.get? "atomic_number" = some (Val.int (Contracts.Parser.atomicNumber s)) := by
+  have h := Contracts.Parser.table_ok s hs
+  cases hg : Tucan.Consts.ELEMENT_ATTRS.get? s with
+  | none => rw [hg] at h; cases h
+  | some ea => rw [hg] at h; exact ⟨ea, rfl, h⟩
+
+/-- atom lines of the V2000 file: coordinates in columns 0–29, symbol in 31–33, charge code in 36–38 -/
+def v2C : Str := py!"    0.0000    0.0000    0.0000 C   0  0  0  0  0  0  0  0  0  0  0  0"
+def v2O : Str := py!"    1.2000    0.0000    0.0000 O   0  0  0  0  0  0  0  0  0  0  0  0"
+/-- bond line `  1  2  2  0  0  0  0` -/
+def v2B : Str := fmt3 1 ++ fmt3 2 ++ fmt3 2 ++ py!"  0  0  0  0"
+def v2counts : Str := py!"  2  1  0  0  0  0  0  0  0  0999 V2000"
+/-- property block: an unrelated line and `M  CHG  1   1   1` (charge +1 on atom 1) -/
+def v2items : List Item := [Item.other py!"M  STY  1   1 SUP", Item.prop Kind.chg [(1, 1)]]
+
+def v2attrs : List Attrs :=
+  [Contracts.V2000.atomAttrs py!"C" (Val.int 6) (Val.flt ⟨py!"    0.0000"⟩) (Val.flt ⟨py!"    0.0000"⟩) (Val.flt ⟨py!"    0.0000"⟩) 0 0,
+   Contracts.V2000.atomAttrs py!"O" (Val.int 8) (Val.flt ⟨py!"    1.2000"⟩) (Val.flt ⟨py!"    0.0000"⟩) (Val.flt ⟨py!"    0.0000"⟩) 0 0]
+def v2bonds : List ((Int × Int) × Attrs) := [((0, 1), ⟨[("bond_type", Val.int 2)]⟩)]
+
+def v2lines : List Str :=
+  py!"" :: py!"  witness" :: py!"" :: v2counts :: ([v2C, v2O] ++ ([v2B] ++ (v2items.map Item.render ++ endLine :: [])))
+
+def v2text : Str := join py!"\n" (v2lines ++ [[]])
+
+theorem v2_parse_C : Tucan.molfile_v2000_reader._parse_atom_line env0 v2C = .ok v2attrs[0] := by
+  obtain ⟨ea, hea, hz⟩ := elem_of_table py!"C" (by decide)
+  have h6 : Contracts.Parser.atomicNumber py!"C" = 6 := by decide
+  rw [h6] at hz
+  have := Contracts.V2000._parse_atom_line_ok env0 v2C py!"C" ea (Val.int 6) (Val.flt ⟨py!"    0.0000"⟩)
+    (Val.flt ⟨py!"    0.0000"⟩) (Val.flt ⟨py!"    0.0000"⟩) 0 (by decide) hea hz (by decide) (by decide) (by decide) (by decide)
+  rw [this]; rfl
+
+
+theorem v2_parse_O : Tucan.molfile_v2000_reader._parse_atom_line env0 v2O = .ok v2attrs[1] := by
+  obtain ⟨ea, hea, hz⟩ := elem_of_table py!"O" (by decide)
+  have h8 : Contracts.Parser.atomicNumber py!"O" = 8 := by decide
+  rw [h8] at hz
+  have := Contracts.V2000._parse_atom_line_ok env0 v2O py!"O" ea (Val.int 8) (Val.flt ⟨py!"    1.2000"⟩)
+    (Val.flt ⟨py!"    0.0000"⟩) (Val.flt ⟨py!"    0.0000"⟩) 0 (by decide) hea hz (by decide) (by decide) (by decide) (by decide)
+  rw [this]; rfl
+
+theorem v2_parse_B : Tucan.molfile_v2000_reader._parse_bond_line env0 v2B (atomDict v2attrs) = .ok v2bonds[0] := by
+  have := Contracts.V2000._parse_bond_line_ok env0 (atomDict v2attrs) 1 2 2 py!"  0  0  0  0" (by decide) (by decide) (by decide)
+    (by rw [Contracts.V2000.atomDict_contains]; decide) (by rw [Contracts.V2000.atomDict_contains]; decide)
+  exact this
+
+
+theorem v2_lines : splitlines v2text = v2lines :=
+  Contracts.Reader.splitlines_join_terminated _ Contracts.Reader.isSep_lf v2lines (by decide)
+
+theorem v2_specGet_id (i : Nat) (hi : i < v2attrs.length) (k : String) (hk : k ∈ ["element_symbol", "atomic_number", "mass", "rad"]) :
+    specGet (v2items.filterMap Item.parsed) i v2attrs[i] k = v2attrs[i].get? k := by
+  simp only [List.mem_cons, List.not_mem_nil, or_false] at hk
+  rcases hk with rfl | rfl | rfl | rfl
+  · exact Contracts.V2000.specGet_other _ _ _ _ (by decide) (by decide) (by decide)
+  · exact Contracts.V2000.specGet_other _ _ _ _ (by decide) (by decide) (by decide)
+  · apply Contracts.V2000.specGet_mass_kept
+    intro v hv
+    have : Contracts.V2000.entriesOf (v2items.filterMap Item.parsed) Kind.iso = [] := by decide
+    rw [this] at hv; cases hv
+  · match i, hi with
+    | 0, _ => decide +revert
+    | 1, _ => decide +revert
+
+theorem v2_noMassRad : ∀ a ∈ v2attrs, a.get? "mass" = none ∧ a.get? "rad" = none := by decide
+
+theorem v2_items_legal : ∀ it ∈ v2items, it.Legal (atomDict v2attrs) := by
+  intro it hit
+  simp only [v2items, List.mem_cons, List.not_mem_nil, or_false] at hit
+  rcases hit with rfl | rfl
+  · exact ⟨by decide, by decide⟩
+  · refine ⟨by decide, by unfold Contracts.V2000.EntryFits; decide, ?_⟩
+    intro e he
+    simp only [List.mem_cons, List.not_mem_nil, or_false] at he
+    subst he
+    rw [Contracts.V2000.atomDict_contains]; decide
+
+theorem v2_hZ : ∀ a ∈ v2attrs, ∃ z, a.get? "atomic_number" = some z := by
+  intro a ha
+  simp only [v2attrs, List.mem_cons, List.not_mem_nil, or_false] at ha
+  rcases ha with rfl | rfl
+  · exact ⟨Val.int 6, by decide⟩
+  · exact ⟨Val.int 8, by decide⟩
+
+theorem v2_hneg : ∀ (i : Nat) (hi : i < v2attrs.length), ∀ k ∈ ["mass", "rad"], ∀ v,
+    specGet (v2items.filterMap Item.parsed) i v2attrs[i] k = some v → Contracts.Reader.isNeg v = false := by
+  intro i hi k hk v hv
+  rw [v2_specGet_id i hi k (by simp only [List.mem_cons, List.not_mem_nil, or_false] at hk ⊢; tauto)] at hv
+  have hno := v2_noMassRad _ (List.getElem_mem hi)
+  simp only [List.mem_cons, List.not_mem_nil, or_false] at hk
+  rcases hk with rfl | rfl
+  · rw [hno.1] at hv; cases hv
+  · rw [hno.2] at hv; cases hv
+
+/-- `Reader.graph_from_molfile_text_v2000`, instance: a V2000 file for CO⁺ (charge given by an `M  CHG` line, an
+unrelated `M  STY` line in the property block) -/
+theorem v2000_witness :
+    ∃ g, Tucan.molfile_reader.graph_from_molfile_text env0 0 v2text = .ok g ∧ g.WF ∧
+      g.nodeList = range (v2attrs.length : Int) ∧
+      (∀ (i : Nat) (hi : i < v2attrs.length), ∃ new, g.node.get? (i : Int) = some (Contracts.Parser.withCode new) ∧
+        ∀ k, new.get? k = specGet (v2items.filterMap Item.parsed) i v2attrs[i] k) ∧
+      (∀ x y, y ∈ g.nbrs x ↔ ∃ b ∈ v2bonds, b.1 = (x, y) ∨ b.1 = (y, x)) := by
+  have hlines : splitlines v2text = py!"" :: py!"  witness" :: py!"" :: v2counts ::
+      ([v2C, v2O] ++ ([v2B] ++ (v2items.map Item.render ++ endLine :: []))) := v2_lines
+  have hver : Contracts.Reader.lastWord v2counts = py!"V2000" := by decide
+  have hna : fieldInt (field v2counts 0 3) = .ok ([v2C, v2O].length : Int) := by decide
+  have hnb : fieldInt (field v2counts 3 3) = .ok ([v2B].length : Int) := by decide
+  have hnl : fieldInt (field v2counts 6 3) = .ok 0 := by decide
+  have hatoms : List.Forall₂ (fun l a => Tucan.molfile_v2000_reader._parse_atom_line env0 l = .ok a) [v2C, v2O] v2attrs :=
+    List.Forall₂.cons v2_parse_C (List.Forall₂.cons v2_parse_O List.Forall₂.nil)
+  have hbonds : List.Forall₂ (fun l b => Tucan.molfile_v2000_reader._parse_bond_line env0 l (atomDict v2attrs) = .ok b)
+      [v2B] v2bonds := List.Forall₂.cons v2_parse_B List.Forall₂.nil
+  have hbl : ∀ l ∈ [v2B], lineKind l = none ∧ l ≠ endLine := by decide
+  have hitems : ∀ it ∈ v2items, it.Legal (atomDict v2attrs) := by
+    intro it hit
+    simp only [v2items, List.mem_cons, List.not_mem_nil, or_false] at hit
+    rcases hit with rfl | rfl
+    · exact ⟨by decide, by decide⟩
+    · refine ⟨by decide, by unfold Contracts.V2000.EntryFits; decide, ?_⟩
+      intro e he
+      simp only [List.mem_cons, List.not_mem_nil, or_false] at he
+      subst he
+      rw [Contracts.V2000.atomDict_contains]; decide
+  have hwf : ∀ a ∈ v2attrs, a.WF := by unfold Dict.WF Dict.keys; decide
+  have hZ : ∀ a ∈ v2attrs, ∃ z, a.get? "atomic_number" = some z := by
+    intro a ha
+    simp only [v2attrs, List.mem_cons, List.not_mem_nil, or_false] at ha
+    rcases ha with rfl | rfl
+    · exact ⟨Val.int 6, by decide⟩
+    · exact ⟨Val.int 8, by decide⟩
+  have hends : ∀ b ∈ v2bonds, b.1.1 ∈ range (v2attrs.length : Int) ∧ b.1.2 ∈ range (v2attrs.length : Int) := by decide
+  have hneg : ∀ (i : Nat) (hi : i < v2attrs.length), ∀ k ∈ ["mass", "rad"], ∀ v,
+      specGet (v2items.filterMap Item.parsed) i v2attrs[i] k = some v → Contracts.Reader.isNeg v = false := by
+    intro i hi k hk v hv
+    rw [v2_specGet_id i hi k (by simp only [List.mem_cons, List.not_mem_nil, or_false] at hk ⊢; tauto)] at hv
+    have hno := v2_noMassRad _ (List.getElem_mem hi)
+    simp only [List.mem_cons, List.not_mem_nil, or_false] at hk
+    rcases hk with rfl | rfl
+    · rw [hno.1] at hv; cases hv
+    · rw [hno.2] at hv; cases hv
+  have hself : ∀ b ∈ v2bonds, b.1.1 ≠ b.1.2 := by decide
+  exact Contracts.Reader.graph_from_molfile_text_v2000 env0 0 v2text _ _ _ v2counts [v2C, v2O] [v2B] v2attrs v2bonds v2items []
+    hlines hver hna hnb hnl hatoms hbonds hbl hitems hwf hZ hends hneg hself
+
+
+/-- `Final.C08_agree`, instance: the V3000 file of `render_ok_witness` and the V2000 file `v2text` (charge by
+`M  CHG` instead of `CHG=`, a double instead of a single bond... identity data equal) get the same TUCAN string -/
+theorem C08_witness :
+    ∃ g g', Tucan.molfile_reader.graph_from_molfile_text env0 (((fileLines exampleCtab exampleDress).drop 4).length + 1)
+        (join py!"\r\n" (fileLines exampleCtab exampleDress ++ [[]])) = .ok g ∧
+      Tucan.molfile_reader.graph_from_molfile_text env0 0 v2text = .ok g' ∧ fuelBound g' = fuelBound g ∧
+      ∀ fuel ≥ fuelBound g, ∀ fuel' ≥ fuelBound g, ∃ s, tucan env0 fuel g = .ok s ∧ tucan env1 fuel' g' = .ok s := by
+  have hlines : splitlines v2text = py!"" :: py!"  witness" :: py!"" :: v2counts ::
+      ([v2C, v2O] ++ ([v2B] ++ (v2items.map Item.render ++ endLine :: []))) := v2_lines
+  have hatoms : List.Forall₂ (fun l a => Tucan.molfile_v2000_reader._parse_atom_line env0 l = .ok a) [v2C, v2O] v2attrs :=
+    List.Forall₂.cons v2_parse_C (List.Forall₂.cons v2_parse_O List.Forall₂.nil)
+  have hbonds : List.Forall₂ (fun l b => Tucan.molfile_v2000_reader._parse_bond_line env0 l (atomDict v2attrs) = .ok b)
+      [v2B] v2bonds := List.Forall₂.cons v2_parse_B List.Forall₂.nil
+  have hitems : ∀ it ∈ v2items, it.Legal (atomDict v2attrs) := v2_items_legal
+  have hZ : ∀ a ∈ v2attrs, ∃ z, a.get? "atomic_number" = some z := v2_hZ
+  have hneg2 := v2_hneg
+  have hlen : v2attrs.length = exampleCtab.atoms.length := rfl
+  have hsameA : ∀ (i : Nat) (hi : i < v2attrs.length) a, exampleCtab.atoms[i]? = some a → ∀ k ∈ idKeys,
+      (attrsOf env0 a).get? k = specGet (v2items.filterMap Item.parsed) i v2attrs[i] k := by
+    intro i hi a ha k hk
+    rw [v2_specGet_id i hi k hk]
+    simp only [idKeys, List.mem_cons, List.not_mem_nil, or_false] at hk
+    match i, hi with
+    | 0, _ =>
+      simp only [exampleCtab, List.getElem?_cons_zero, Option.some.injEq] at ha
+      subst ha
+      rcases hk with rfl | rfl | rfl | rfl <;> decide +revert
+    | 1, _ =>
+      simp only [exampleCtab, List.getElem?_cons_succ, List.getElem?_cons_zero, Option.some.injEq] at ha
+      subst ha
+      rcases hk with rfl | rfl | rfl | rfl <;> decide +revert
+  have hsameB : ∀ (i j : Nat) a b, exampleCtab.atoms[i]? = some a → exampleCtab.atoms[j]? = some b →
+      (exampleCtab.joined (intOf a.idx) (intOf b.idx) ↔
+        ∃ q ∈ v2bonds, q.1 = ((i : Int), (j : Int)) ∨ q.1 = ((j : Int), (i : Int))) := by
+    intro i j a b ha hb
+    match i, j with
+    | 0, 0 =>
+      simp only [exampleCtab, List.getElem?_cons_zero, Option.some.injEq] at ha hb
+      subst ha hb; decide
+    | 0, 1 =>
+      simp only [exampleCtab, List.getElem?_cons_succ, List.getElem?_cons_zero, Option.some.injEq] at ha hb
+      subst ha hb; decide
+    | 1, 0 =>
+      simp only [exampleCtab, List.getElem?_cons_succ, List.getElem?_cons_zero, Option.some.injEq] at ha hb
+      subst ha hb; decide
+    | 1, 1 =>
+      simp only [exampleCtab, List.getElem?_cons_succ, List.getElem?_cons_zero, Option.some.injEq] at ha hb
+      subst ha hb; decide
+    | n + 2, _ => simp [exampleCtab] at ha
+    | 0, n + 2 => simp [exampleCtab] at hb
+    | 1, n + 2 => simp [exampleCtab] at hb
+  exact Contracts.Final.C08_agree env0 env0_set env1_set env0_bliss env1_cp env1_pv
+    exampleCtab example_plain example_notNeg example_notSelf (by decide) _ isSep_crlf exampleDress example_dressOK
+    example_noBreaks example_bondShape _ (le_refl _)
+    0 v2text _ _ _ v2counts [v2C, v2O] [v2B] v2attrs v2bonds v2items []
+    hlines (by decide) (by decide) (by decide) (by decide) hatoms hbonds (by decide) hitems
+    (by unfold Dict.WF Dict.keys; decide) hZ (by decide) hneg2 (by decide) hlen hsameA hsameB
+
+
 end Contracts.Witness
+
+/-! ## axioms -/
+#print axioms Contracts.Witness.water_exists
+#print axioms Contracts.Witness.C15_witness
+#print axioms Contracts.Witness.C12_witness
+#print axioms Contracts.Witness.C05_witness
+#print axioms Contracts.Witness.C01_witness
+#print axioms Contracts.Witness.C04_witness
+#print axioms Contracts.Witness.C13_witness
+#print axioms Contracts.Witness.C03_pipeline_witness
+#print axioms Contracts.Witness.C02_witness
+#print axioms Contracts.Witness.C03_fixpoint_witness
+#print axioms Contracts.Witness.C11_norm_witness
+#print axioms Contracts.Witness.render_ok_witness
+#print axioms Contracts.Witness.C06_reader_witness
+#print axioms Contracts.Witness.C09_witness
+#print axioms Contracts.Witness.permute_witness
+#print axioms Contracts.Witness.v2000_witness
+#print axioms Contracts.Witness.C08_witness
